@@ -1383,7 +1383,10 @@ def run(ctx):
                    "followed by a line / last unterminated / last terminated / in an included file / stdin / WCOLL / comment tail / all "
                    "blank; lexical forms incl. CR; #include look-alikes; missing and unreadable files at every depth x 5 source "
                    "positions; more skipped duplicates than descriptors (3 shapes x 3 ways to name the top file); 20 and 60 file "
-                   "sources on one command line under 40 descriptors.  THEN cases = generated file trees (1-12 files in the top file's directory, a sub-directory or elsewhere; "
+                   "sources on one command line under 40 descriptors; WCOLL='' / empty -w and -x arguments / the empty file name `^`; stdin named "
+                   "two and three times in every position (also as an exclusion file); include names around the path buffer (explicit names "
+                   "of 300..PATHBUF-1 bytes read, PATHBUF, PATHBUF+1, 5000 bytes with a file at the cut name; bare names with DIR/NAME of "
+                   "PATHBUF-2..PATHBUF+1 bytes with a decoy at the cut name).  THEN cases = generated file trees (1-12 files in the top file's directory, a sub-directory or elsewhere; "
                    "include graphs chain/tree/diamond/cycle/cycle-to-top/self/random; include names bare, sub/NAME, "
                    "./, ../, absolute, and names that merely start with dots (.extraB, ..racksB, .d/listB: hidden "
                    "files/sub-directories, with decoy files of the same name in the current directory); pdsh runs in a "
